@@ -69,7 +69,13 @@ func checkC20(r *Run) {
 		script = append(script, Msg{Kind: MsgRec, Values: []octosql.Value{intv(i), octosql.NewTime(ts), intv(sb.Draw(3))}})
 	}
 	intervalSQL := func(ms int64) string { return fmt.Sprintf("INTERVAL %d MILLISECONDS", ms) }
-	sql := "SELECT * FROM max_diff_watermark(source=>TABLE(sim.s), max_diff=>" + intervalSQL(maxDiffMs) + ", time_field=>DESCRIPTOR(t)"
+	// SELECT * leaves the plan as it is; a column list makes the optimiser rewrite it (prune v / reorder)
+	projection := [][]string{nil, {"id", "t"}, {"t", "id", "v"}, {"id", "t", "v"}}[hdr.Draw(4)]
+	selectList := "*"
+	if projection != nil {
+		selectList = "x." + strings.Join(projection, ", x.")
+	}
+	sql := "SELECT " + selectList + " FROM max_diff_watermark(source=>TABLE(sim.s), max_diff=>" + intervalSQL(maxDiffMs) + ", time_field=>DESCRIPTOR(t)"
 	if resMs != 0 {
 		sql += ", resolution=>" + intervalSQL(resMs)
 	}
@@ -89,7 +95,7 @@ func checkC20(r *Run) {
 	}
 	r.Log("sql: %s", sql)
 	r.Log("in: %s", strings.Join(inDesc, " "))
-	r.Shape(maxDiffMs, resMs, pre1970, withSrcWM, scriptShape(script))
+	r.Shape(maxDiffMs, resMs, pre1970, withSrcWM, fmt.Sprint(projection), scriptShape(script))
 	r.Sched(strings.Join(inDesc, " "))
 	r.NonTrivial(len(script) >= 2)
 	r.AddSimTime((cur + 1) * int64(time.Millisecond))
@@ -104,7 +110,14 @@ func checkC20(r *Run) {
 		}
 		ts := m.Values[1].Time
 		if !haveWM || ts.After(curWM) {
-			expect = append(expect, fmt.Sprintf("rec %s et=%s", RowString(m.Values), msString(ts)))
+			out := m.Values
+			if projection != nil {
+				out = nil
+				for _, c := range projection {
+					out = append(out, m.Values[map[string]int{"id": 0, "t": 1, "v": 2}[c]])
+				}
+			}
+			expect = append(expect, fmt.Sprintf("rec %s et=%s", RowString(out), msString(ts)))
 		}
 		rounded := time.Unix(0, floorDiv(ts.UnixNano(), res*int64(time.Millisecond))*res*int64(time.Millisecond))
 		if !haveMax || rounded.After(maxSeen) {
